@@ -185,6 +185,14 @@ let res_p (start : nat) (r : (nat * tnode) res) : string =
   | Panic -> "PANIC"
   | Fuel -> "FUEL"
 
+let res_a (r : (nat * tnode) ares) : string =
+  match r with
+  | AOk ((off, t), stk) ->
+      Printf.sprintf "ok@%d=%s;S:%s" (int_of_nat off) (dbg t) (stack_dbg { cache = stk; popped = []; lengths = [] })
+  | AFail -> "fail"
+  | APanic -> "PANIC"
+  | AFuel -> "FUEL"
+
 let res_c (start : nat) (r : nat res) : string =
   match r with
   | Ok (off, st) -> Printf.sprintf "ok@%d;S:%s;T:%s" (int_of_nat off) (stack_dbg st.stk) (tracker_dbg start st)
@@ -208,7 +216,8 @@ let run_input form hex a b =
     | Node (id, inh, te) ->
         let p = tparse e fuel inh te start st0 in
         let c = tcheck e fuel inh te start st0 in
-        Printf.printf "%s|%s|%s|%d|%d|P:%s|C:%s\n" id form hex a b (res_p start p) (res_c start c)
+        let ar = aparse e fuel inh te start [] in
+        Printf.printf "%s|%s|%s|%d|%d|P:%s|C:%s|A:%s\n" id form hex a b (res_p start p) (res_c start c) (res_a ar)
     | Rule (id, idx) ->
         let r = n_of_int idx in
         let p = try_parse_partial e fuel r in
@@ -226,8 +235,9 @@ let run_input form hex a b =
           | Ok (_, st) -> Printf.sprintf "ok;T:%s" (tracker_dbg start st)
           | Fail st -> Printf.sprintf "fail;T:%s" (tracker_dbg start st)
           | Panic -> "PANIC" | Fuel -> "FUEL" in
-        Printf.printf "%s|%s|%s|%d|%d|P:%s|C:%s|FP:%s|FC:%s|TK:%s\n" id form hex a b
-          (res_p start p) (res_c start c) fps fcs tk)
+        let ar = aparse e fuel true (TRule (r, SkOn)) start [] in
+        Printf.printf "%s|%s|%s|%d|%d|P:%s|C:%s|FP:%s|FC:%s|TK:%s|A:%s\n" id form hex a b
+          (res_p start p) (res_c start c) fps fcs tk (res_a ar))
     (List.rev !shapes)
 
 let run_stack (ops : sexp list) =
